@@ -188,7 +188,7 @@ def gen_table(rng, i):
         if t == 'datetime' and rng.random() < 0.6:
             fmt = rng.choice(['dd/MM/yyyy HH:mm:ss', 'yyyy-MM-ddTHH:mm:ss', 'yyyy-MM-dd HH:mm', 'd.M.yy HH.mm.ss'])
         cols.append({'name': rng.choice(['a', 'b', 'naïve', 'x y', 'Col', 'id', 'when', 'ß']) + str(j), 'type': t, 'values': vals,
-                     'format': fmt})
+                     'format': fmt, 'bool': rng.choice([spell, spell, 'true|false', 'Y|N', '1|0', 'yes|no', 'T|F']) if t == 'boolean' else None})
     return {'cols': cols, 'nrows': n, 'delimiter': [',', '|', '\t', ';'][i % 4], 'encoding': ['utf-8', 'latin-1', 'utf-16'][(i // 4) % 3],
             'header': (i // 2) % 2 == 0 or rng.random() < 0.5, 'bool': spell,
             'header_decl': ['both', 'header', 'count'][(i // 5) % 3]}
@@ -199,7 +199,6 @@ def run_table_case(ctx, case):
     install()
     t = case['table']
     d = ctx.scratch
-    tv, fv = t['bool'].split('|')
     rows = []
     for r in range(t['nrows']):
         row = []
@@ -208,6 +207,7 @@ def run_table_case(ctx, case):
             if v is None:
                 row.append('')
             elif c['type'] == 'boolean':
+                tv, fv = (c.get('bool') or t['bool']).split('|')
                 row.append(tv if v else fv)
             elif c['type'] in ('date', 'datetime'):
                 dt = datetime.datetime.fromisoformat(v)
@@ -230,8 +230,8 @@ def run_table_case(ctx, case):
     columns = []
     for c in t['cols']:
         dt = c['type']
-        if c['type'] == 'boolean' and t['bool'] != 'true|false':
-            dt = {'base': 'boolean', 'format': t['bool']}
+        if c['type'] == 'boolean' and (c.get('bool') or t['bool']) != 'true|false':
+            dt = {'base': 'boolean', 'format': c.get('bool') or t['bool']}
         elif c['format']:
             dt = {'base': c['type'], 'format': c['format']}
         columns.append({'name': c['name'], 'datatype': dt})
@@ -245,7 +245,8 @@ def run_table_case(ctx, case):
     mdpath = write_md(d, 'tab', columns, dialect)
     nonnull = any(v is not None for c in t['cols'] for v in c['values'])
     cls = [('part=table',), ('delimiter=' + ('tab' if t['delimiter'] == '\t' else t['delimiter']),), ('encoding=' + enc,),
-           ('header=%d' % t['header'],), ('bool=' + t['bool'],)] + [('type=' + c['type'],) for c in t['cols']]
+           ('header=%d' % t['header'],), ('bool=' + t['bool'],),
+           ('n_bool_spellings=%d' % len(set(c.get('bool') for c in t['cols'] if c['type'] == 'boolean')),)] + [('type=' + c['type'],) for c in t['cols']]
     rec.case(case, nontrivial=nonnull, cls=cls)
     mech0 = {'header': t['header'], 'header_decl': None if t['header'] else t.get('header_decl', 'both')}
     try:
